@@ -58,19 +58,27 @@ def main():
     finally:
         sh(['git', '-C', '/repo', 'worktree', 'remove', '--force', WT])
         shutil.rmtree(WT, ignore_errors=True)
-    # run the checks against /repo with the patch applied
-    rc, out = sh(['git', '-C', '/repo', 'apply', patch])
-    if rc != 0:
-        res['error'] = 'patch does not apply to /repo: ' + out[-300:]
-    else:
-        try:
+    # run the checks against a scratch worktree with the patch applied (VERIF_REPO), /repo itself stays untouched
+    WC = '/tmp/mwc'
+    if os.path.exists(WC):
+        sh(['git', '-C', '/repo', 'worktree', 'remove', '--force', WC])
+        shutil.rmtree(WC, ignore_errors=True)
+    sh(['git', '-C', '/repo', 'worktree', 'add', '-q', '--detach', WC, 'HEAD'])
+    try:
+        rc, out = sh(['git', 'apply', patch], cwd=WC)
+        if rc != 0:
+            res['error'] = 'patch does not apply: ' + out[-300:]
+        else:
+            ENV['VERIF_REPO'] = WC
             for cid in checks:
                 t = time.time()
                 rc, out = sh(['./check', cid, os.environ.get('TIER', 'quick')], cwd='/verif', timeout=3600)
                 keys = sorted(set(l.split('key=')[1].split(' ')[0] for l in out.splitlines() if 'key=' in l and 'KNOWN-FINDING' not in l))
                 res['checks'][cid] = {'exit': rc, 'keys': keys, 'secs': round(time.time() - t, 1), 'last': out.strip().splitlines()[-1][:200] if out.strip() else ''}
-        finally:
-            sh(['git', '-C', '/repo', 'checkout', '--', '.'])
+    finally:
+        ENV.pop('VERIF_REPO', None)
+        sh(['git', '-C', '/repo', 'worktree', 'remove', '--force', WC])
+        shutil.rmtree(WC, ignore_errors=True)
     print(json.dumps(res, indent=1))
     return 0
 
